@@ -354,6 +354,17 @@ func (f *FuncCtx) countCall(text string, args []Val, e *ast.CallExpr, env *Env) 
 			}
 		}
 	}
+	// wildcard counters: ncalls("*.Clone") counts every call whose callee text ends in ".Clone"
+	for tk := range f.trackCall {
+		if strings.HasPrefix(tk, "*.") && strings.HasSuffix(text, tk[1:]) {
+			wk := "calls:" + tk
+			cur := "0"
+			if v, ok := env.names[wk]; ok {
+				cur = v.T
+			}
+			env.names[wk] = f.name(Val{T: fmt.Sprintf("(+ %s 1)", cur), Typ: types.Typ[types.Int]}, "ncalls")
+		}
+	}
 	key := "calls:" + text
 	if f.trackCall[text] {
 		cur := "0"
